@@ -89,13 +89,15 @@ class C16(Check):
             "with the model for every live stream and k in {a, b, never-set}; at value() the AST the executor "
             "receives, its ast.dump, unparse text and calc_ast_hash are compared with those of the same "
             "derivation chain built without any QMetaData")
-    assumptions = ["values are small ints incl. falsy ones (0, ''); equal-value re-sets are in the alphabet ({a:1} twice)"]
+    assumptions = ["values are small ints incl. falsy ones (0, ''), plus values that differ but print alike (1 / '1', 2.5 / '2.5', "
+                   "(1, 2) / '(1, 2)'); equal-value re-sets are in the alphabet ({a:1} twice); values that are equal under == "
+                   "but of different type (1 / True / 1.0) are outside"]
     level_text = ("explicit-state model checking of the implementation: all histories to the stated depth, "
                   "reference-model comparison on every live stream after every transition")
 
     def spaces(self, tier):
         Q = tier == "quick"
-        plan = [("full", 3, 1), ("qmdonly", 4, 2)] if Q else [("full", 4, 2), ("qmdonly", 6, 2)]
+        plan = [("full", 3, 1), ("qmdonly", 4, 2), ("values", 3, 1)] if Q else [("full", 4, 2), ("qmdonly", 6, 2), ("values", 5, 2)]
         out = []
         for mname, depth, plen in plan:
             m = self._model(mname)
@@ -107,6 +109,10 @@ class C16(Check):
     def _model(self, name):
         if name == "full":
             return Model()
+        if name == "values":
+            # values that are different but print alike (1 / '1', 2.5 / '2.5', a tuple / its text)
+            return Model(derive=("Select",), qmds=[(("a", 1),), (("a", "1"),), (("a", 2.5),), (("a", "2.5"),), (("a", (1, 2)),),
+                                                    (("a", "(1, 2)"),)], execs=(), roots=(1, 0))
         return Model(derive=("Select",), qmds=QMDS[:3] + QMDS[4:5], execs=(), roots=(1, 0))
 
     def run_prefix(self, payload):
